@@ -18,13 +18,13 @@ RULE = ("BFS over histories of startService / stopService / whenConnected(None|1
         "clock to next retry / clock half-way, executed on a real ClientService for every configuration "
         "(prepareConnection in {absent, ok, raises, closes-then-raises, Deferred}, endpoint answering "
         "asynchronously or synchronously (success/failure scripts), transport closing asynchronously or "
-        "synchronously, waiter callbacks re-entering whenConnected/stopService). After every event: <=1 "
+        "synchronously, waiter callbacks re-entering whenConnected/stopService, application protocol whose own connectionLost raises). After every event: <=1 "
         "connection/attempt, retry at failure time + policy(consecutive failures), waiter deadlines "
         "(connection / failure limit / stop), stop Deferred vs. open connections, no exception from any event. "
         "non-trivial = distinct canonical states with a pending waiter, retry, prepare, closing connection, "
         "pending stop or abandoned connection")
-BOUNDS = {"quick": "every history of <= 8 events, <= 2 pending waiters at a time, 38 configurations",
-          "thorough": "every history of <= 11 events, <= 2 pending waiters at a time, 38 configurations"}
+BOUNDS = {"quick": "every history of <= 8 events, <= 2 pending waiters at a time, 43 configurations",
+          "thorough": "every history of <= 11 events, <= 2 pending waiters at a time, 43 configurations"}
 ASSUMPTIONS = [
     "fake endpoint: connect() returns a Deferred that the harness fires, fails, leaves pending, or that is "
     "already fired (sync scripts); cancelling it fails it synchronously (Deferred semantics)",
@@ -75,6 +75,10 @@ class Refused(Exception):
 
 class HarnessBug(Exception):
     pass
+
+
+class AppError(Exception):
+    """Raised by the application protocol's own connectionLost (configuration proto=lost_raises)."""
 
 
 def _mine(exc):
@@ -160,12 +164,16 @@ def _classes():
         from twisted.internet.interfaces import IStreamClientEndpoint
         from zope.interface import implementer
 
+        class RaisingProtocol(Protocol):
+            def connectionLost(self, reason):
+                raise AppError("application connectionLost failed")
+
         class F(Factory):
             def __init__(self, st):
                 self.st = st
 
             def buildProtocol(self, addr):
-                p = Protocol()
+                p = RaisingProtocol() if self.st.cfg.get("proto") == "lost_raises" else Protocol()
                 self.st.last_inner = p
                 return p
 
@@ -415,6 +423,10 @@ class St:
             t.proxy.connectionLost(Failure(ConnectionDone()))
         except HarnessBug:
             raise
+        except AppError:
+            # the application's own exception comes back to the transport (which logs it); the service
+            # must have been told about the loss all the same -- judged by the ordinary end-of-event checks
+            self.flags.add("app-connectionLost-raised")
         except Exception as e:
             if _mine(e):
                 raise
@@ -737,6 +749,10 @@ def configs():
     for re in ("wc", "stop"):
         for script in ("P", "F"):
             out.append({"prep": "none", "script": script, "sync_close": False, "reenter": re})
+    # the application protocol's own connectionLost raises: the service must still hear about the loss
+    for prep, script, sc in (("none", "P", False), ("none", "S", False), ("defer", "P", False),
+                             ("none", "P", True), ("none", "FS", False)):
+        out.append({"prep": prep, "script": script, "sync_close": sc, "reenter": None, "proto": "lost_raises"})
     return out
 
 
